@@ -182,7 +182,7 @@ class Gen:
         tids = rng.sample([1, 2, 3, 55, 9000], n_threads)
         host: List[dict] = []
         n_steps = rng.randint(*p.n_steps)
-        step_base = rng.choice([0, 3, 15, 550])
+        step_base = rng.choice([0, 3, 15, 550, 8, 98])       # 8 and 98: the step numbers change their digit count within the trace
         for ti, tid in enumerate(tids):
             budget = [rng.randint(3, 25)]
             allow_zero = p.p_zero_dur > 0
